@@ -137,6 +137,8 @@ type TxSpec struct {
 	FeeDenom string `json:"fee_denom,omitempty"`
 	FeeDust  int64  `json:"fee_dust,omitempty"` // additional fee coin in the second denomination
 	Memo   string `json:"memo,omitempty"`
+	// MemoHex, when set, is the memo as hex (memos that are not valid UTF-8 do not survive a JSON trace file)
+	MemoHex string `json:"memo_hex,omitempty"`
 	Entropy int64 `json:"entropy"`
 	// signing
 	SignBy  int    `json:"sign_by"`            // account whose private key signs (== Acct for an honest tx)
